@@ -120,6 +120,27 @@ static bool isCompatibleAddress(const QHostAddress &a1, const QHostAddress &a2)
         isIPv6LinkLocalAddress(a1) == isIPv6LinkLocalAddress(a2);
 }
 
+// Returns true if the STUN message in \a buffer carries a MESSAGE-INTEGRITY
+// attribute where QXmppStunMessage::decode() would look at it, i.e. before
+// any FINGERPRINT attribute (same walk over the attributes as decode()).
+static bool hasMessageIntegrity(const QByteArray &buffer)
+{
+    int offset = STUN_HEADER;
+    while (offset + 4 <= buffer.size()) {
+        const auto *p = reinterpret_cast<const uchar *>(buffer.constData()) + offset;
+        const quint16 a_type = (p[0] << 8) | p[1];
+        const quint16 a_length = (p[2] << 8) | p[3];
+        if (a_type == MessageIntegrity) {
+            return true;
+        }
+        if (a_type == Fingerprint) {
+            return false;
+        }
+        offset += 4 + 4 * ((a_length + 3) / 4);
+    }
+    return false;
+}
+
 static bool decodeAddress(QDataStream &stream, quint16 a_length, QHostAddress &address, quint16 &port, const QByteArray &xorId = QByteArray())
 {
     if (a_length < 4) {
@@ -2143,6 +2164,14 @@ void QXmppIceComponent::handleDatagram(const QByteArray &buffer, const QHostAddr
     if (!stunTransaction) {
         messagePassword = (messageType & 0xFF00) ? d->config->remotePassword : d->config->localPassword;
         if (messagePassword.isEmpty()) {
+            return;
+        }
+
+        // messages from the peer must be authenticated with the short-term
+        // credentials (RFC 5245 7.1.2.3, 7.2.1.1); decode() only verifies
+        // MESSAGE-INTEGRITY when the attribute is present
+        if (!hasMessageIntegrity(buffer)) {
+            warning(u"Dropping STUN packet with missing MESSAGE-INTEGRITY"_s);
             return;
         }
     }
